@@ -302,25 +302,30 @@ macro_rules! family {
 
             // Tolerance constants (DESIGN.md section 4: k = operations on the longest path + 2, times u, times the
             // sum of the absolute values of the terms; sin/cos are counted as one operation with <= 1 ulp = 2u error).
-            /// Rodrigues entry: cos, 1-cos, a_i*a_j, *(1-cos), + a_k*sin  -> 5 + 2, rounded up
-            const K_AA: f64 = 8.0;
+            /// Rodrigues entry a_i a_j (1 - cos) + a_k sin, relative to S = |a_i a_j| (1 + |cos|) + |a_k sin|: cos (1 ulp = 2u),
+            /// 1 - cos (u), a_i a_j (u), their product (u), the sine term (2u + u), the sum (u) -> <= 6u S; twice that
+            /// (first calibration with k = 8 showed headroom 0.42 over 8 seeds, too close to the limit for a 6u bound)
+            const K_AA: f64 = 12.0;
             /// axis-angle quaternion component a_i * sin(angle/2): sin (<= 1 ulp = 2u) + product (u) = 3u, + 2 -> 5, rounded up
             const K_AAQ: f64 = 6.0;
             /// literal single-axis patterns: one trigonometric value per entry (1 ulp = 2u) + 2
             const K_EL: f64 = 4.0;
-            /// Vec2::rotate of Vec2::from_angle: cos, *, -  -> 3 + 2, rounded up
-            const K_V2: f64 = 6.0;
+            /// Vec2::rotate of Vec2::from_angle: trigonometric value (2u) + product (u) per term, difference (u) -> <= 4u S; twice that
+            const K_V2: f64 = 8.0;
             /// Euler matrix / quaternion entries are sums of monomials of up to three trigonometric factors: three factors
             /// (<= 1 ulp = 2u each) + two products + one sum = 9u relative to the sum of |monomials|, + 2 -> 11, rounded up
             /// (first calibration with "sin_cos = one operation", k = 8, gave headroom 0.56: the derivation was revisited)
             const K_EU: f64 = 12.0;
             /// Euler extraction round trip from a MATRIX, multiplies u * (1 + 1/d) (DESIGN calibration: worst observed 2.3)
             const K_RT: f64 = 8.0;
-            /// ... from a QUATERNION: to_euler first forms Mat3::from_quat(q), whose entries 1 - (yy + zz), xy +- wz carry up
-            /// to 5u ABSOLUTE error (three roundings on values <= 2 plus the result); each of the two outer angles
-            /// atan2(d sin, d cos) turns an entry error e into sqrt(2) e / d and both add up in the rebuilt matrix:
-            /// 2 sqrt(2) * 5u / d = 14.1 u/d, plus the K_RT = 8 of the extraction itself -> 22.1, rounded up to 24.
-            const K_RT_Q: f64 = 24.0;
+            /// ... from a QUATERNION q: to_euler first forms Mat3::from_quat(q). Near the singularity the two entry pairs the
+            /// outer angles are read from are O(d) and come out of cancellations: the diagonal 1 - (xx + yy) carries <= 2u
+            /// of rounding plus nu = | |q|^2 - 1 | (from_quat assumes a unit quaternion; quaternions made by from_euler are
+            /// unit only to ~3u), the off-diagonal yz - wx <= 0.5u. Each outer angle atan2(d sin, d cos) turns that into
+            /// (2.1u + nu)/d, both add up in the rebuilt matrix: (4.2u + 2 nu)/d, on top of the matrix extraction itself.
+            /// Tolerance: ((K_RT + 8) u + 4 nu) (1 + 1/d)  (twice the bound; nu is computed exactly per case).
+            /// (First calibration with a flat k = 24 reached headroom 0.50 on self-produced quaternions: revisited.)
+            const K_RT_Q: f64 = K_RT + 8.0;
             /// to_axis_angle rebuild in quaternion space: half angle atan2(|v|, w) <= pi carries 1 ulp (2*pi*u) + the 2.5u of
             /// |v| (1.25u), the axis v/|v| 3.5u -> <= 11u; the tolerance is twice that bound, rounded up
             const K_X: f64 = 24.0;
@@ -559,19 +564,21 @@ macro_rules! family {
             /// `tol(d)`: k*u*(1 + 1/d) outside the gimbal branch; inside it (d below the documented `16 EPSILON`
             /// threshold, minus a band for the rounding of the deciding quantity) glam sets the third angle to zero,
             /// which is exact at d = 0 and off by <= 2d otherwise: k*u + 4d.
-            fn rt_tol(d: f64, k: f64) -> (f64, bool) {
+            /// Inside the branch the returned first angle can be near +-pi and carries 1 ulp of that (4u), the middle one
+            /// likewise: (k + 8) u instead of k u.
+            fn rt_tol(d: f64, k: f64, nu: f64) -> (f64, bool) {
                 let d0 = 16.0 * <T as Fl>::EPS;
                 let band = 8.0 * U + 1e-3 * d0;
                 if d < d0 - band {
-                    (k * U + 4.0 * d, true)
+                    ((k + 8.0) * U + 4.0 * nu + 4.0 * d, true)
                 } else {
-                    (k * U * (1.0 + 1.0 / d), false)
+                    ((k * U + 4.0 * nu) * (1.0 + 1.0 / d), false)
                 }
             }
 
-            fn rt_eval(t: &mut Tally, ty: &'static str, o: &refm::Order, er: EulerRot, src: &str, truth: &M3, got: (T, T, T), rebuilt_by_glam: &G3, ctx: &dyn Fn() -> String) -> Result<(), Fail> {
+            fn rt_eval(t: &mut Tally, ty: &'static str, o: &refm::Order, er: EulerRot, src: &str, truth: &M3, nu: f64, got: (T, T, T), rebuilt_by_glam: &G3, ctx: &dyn Fn() -> String) -> Result<(), Fail> {
                 let d = refm::sing_distance(o, truth);
-                let (tol, gimbal) = rt_tol(d, if ty == TQ { K_RT_Q } else { K_RT });
+                let (tol, gimbal) = rt_tol(d, if ty == TQ { K_RT_Q } else { K_RT }, nu);
                 let fam = if o.proper { "proper" } else { "tait-bryan" };
                 let dec = if gimbal { "gimbal-branch" } else { decade(d) };
                 let (a, b, c) = (got.0.to_f64(), got.1.to_f64(), got.2.to_f64());
@@ -658,7 +665,10 @@ macro_rules! family {
                 // Quat
                 {
                     let q = if kind == 2 { $Q::from_euler(er, ang[0], ang[1], ang[2]) } else { $Q::from_xyzw(T::from_f64(q64[0]), T::from_f64(q64[1]), T::from_f64(q64[2]), T::from_f64(q64[3])) };
-                    let truth = refm::q_to_m3(&q_of(&q_arr(q)));
+                    let qd = q_of(&q_arr(q));
+                    let truth = refm::q_to_m3(&qd);
+                    let nu = qd[0].mul(qd[0]).add(qd[1].mul(qd[1])).add(qd[2].mul(qd[2])).add(qd[3].mul(qd[3])).sub(refm::ONE).abs().f();
+                    t.ratio("info:roundtrip-quat-norm-deviation nu/(16u)", nu / (16.0 * U));
                     let got = q.to_euler(er);
                     let back = refm::q_to_m3(&q_of(&q_arr($Q::from_euler(er, got.0, got.1, got.2))));
                     let mut bg = [[0.0; 3]; 3];
@@ -667,7 +677,7 @@ macro_rules! family {
                             bg[r][c] = back[r][c].f();
                         }
                     }
-                    rt_eval(t, TQ, &o, er, src, &truth, got, &bg, &|| format!("q={:?}; {}", q, ctx()))?;
+                    rt_eval(t, TQ, &o, er, src, &truth, nu, got, &bg, &|| format!("q={:?}; {}", q, ctx()))?;
                 }
                 // Mat3
                 {
@@ -675,21 +685,21 @@ macro_rules! family {
                     let truth = m3_of(&g3_from_cols9(&m.to_cols_array()));
                     let got = m.to_euler(er);
                     let back = g3_from_cols9(&$M3::from_euler(er, got.0, got.1, got.2).to_cols_array());
-                    rt_eval(t, TM3, &o, er, src, &truth, got, &back, &|| format!("m={:?}; {}", m, ctx()))?;
+                    rt_eval(t, TM3, &o, er, src, &truth, 0.0, got, &back, &|| format!("m={:?}; {}", m, ctx()))?;
                 }
                 if HAS3A {
                     let m = if kind == 2 { $M3A::from_euler(er, ang[0], ang[1], ang[2]) } else { $M3A::from_cols_array(&c9) };
                     let truth = m3_of(&g3_from_cols9(&m.to_cols_array()));
                     let got = m.to_euler(er);
                     let back = g3_from_cols9(&$M3A::from_euler(er, got.0, got.1, got.2).to_cols_array());
-                    rt_eval(t, TM3A, &o, er, src, &truth, got, &back, &|| format!("m={:?}; {}", m, ctx()))?;
+                    rt_eval(t, TM3A, &o, er, src, &truth, 0.0, got, &back, &|| format!("m={:?}; {}", m, ctx()))?;
                 }
                 {
                     let m = if kind == 2 { $M4::from_euler(er, ang[0], ang[1], ang[2]) } else { $M4::from_cols_array(&c16) };
                     let truth = m3_of(&g3_from_cols16(&m.to_cols_array(), TM4, "from_euler")?);
                     let got = m.to_euler(er);
                     let back = g3_from_cols16(&$M4::from_euler(er, got.0, got.1, got.2).to_cols_array(), TM4, "from_euler")?;
-                    rt_eval(t, TM4, &o, er, src, &truth, got, &back, &|| format!("m={:?}; {}", m, ctx()))?;
+                    rt_eval(t, TM4, &o, er, src, &truth, 0.0, got, &back, &|| format!("m={:?}; {}", m, ctx()))?;
                 }
                 Ok(())
             }
